@@ -103,3 +103,36 @@ PROPS["C16"] = Meta(single_jobs(200, 2500),
 PROPS["C17"] = Meta(single_jobs(300, 4000),
     GEN_RULE + "oracle = getAllParticlesData()[i] equals the input row of particle i and getAllParticlesRhs()[i] the result accumulated by particle i; "
     "non-trivial = more particles than values per particle (where a transposition is visible)", COMMON_ASSUME)
+
+
+def sched(rt, dim=3):
+    name = {1: "omp", 2: "specx", 3: "starpu"}[rt]
+    defs = {"DIM": dim, "RT": rt, "NX": 0}
+    if rt == 1:
+        # compiled with -fopenmp, linked WITHOUT libgomp: the mock GOMP ABI is the runtime
+        return Bin("t_sched_%s_d%d" % (name, dim), ["props/t_sched.cpp", "runtimes/mockgomp.cpp"], defs, cxxflags=["-fopenmp"], ldflags=["-lpthread"])
+    inc = {2: "runtimes/specx", 3: "runtimes/starpu"}[rt]
+    import os
+    return Bin("t_sched_%s_d%d" % (name, dim), ["props/t_sched.cpp"], defs, includes=[os.path.join(os.path.dirname(os.path.abspath(__file__)), inc)], ldflags=["-lpthread"])
+
+
+SCHED_ASSUME = COMMON_ASSUME + [
+    "the mock runtimes (harness/runtimes: GOMP ABI for g++ 12, Specx API, StarPU API) implement the dependence semantics of the real ones; a runtime entry point they do not know is a link error, never a silent pass",
+    "task bodies execute atomically; intra-task interleavings are covered through the declared-dependency conflict check (data-race freedom) only",
+    "g++ lowers tbfmm's 'commute' to 'inout' (_OPENMP=201511); the clang/libomp ABI is not mocked",
+]
+
+PROPS["C03"] = Meta(
+    jobs=[
+        Job("omp-d3", sched(1, 3), quick=(5, 250, 100), thorough=(16, 3000, 100)),
+        Job("specx-d3", sched(2, 3), quick=(4, 250, 100), thorough=(16, 3000, 100)),
+        Job("starpu-d3", sched(3, 3), quick=(4, 250, 100), thorough=(16, 3000, 100)),
+        Job("omp-d2", sched(1, 2), quick=(3, 250, 100), thorough=(16, 3000, 100)),
+    ],
+    rule="FmmCase + thread count 1..16 + schedule (strategy: eager / all deferred FIFO, LIFO, random, priority inverted, priority order / mixed, and a generated decision list that also "
+         "assigns worker ids) + constructor form (kernel given / configuration only) + working level; the mock runtime records the submitted tasks and declared dependencies and executes a linear "
+         "extension; oracles: bit-identical cells and particles vs the sequential executor, same interaction multiset, every pair of conflicting accesses (recorded per task by the probe kernel) "
+         "ordered or mutually exclusive in the declared DAG, kernel object = the one of the running worker, all tasks done at return, ASan stack/heap lifetime; "
+         "non-trivial = >= 20 tasks, >= 1 task deferred past its creation, >= 2 worker ids used, >= 2 upward levels; distinct by hash of (case, schedule)",
+    assumptions=SCHED_ASSUME,
+)
